@@ -418,6 +418,7 @@ func normalizeDomainpart(domainpart string) (string, error) {
 	//    character MUST be stripped before any other canonicalization steps
 	//    are taken.
 	domainpart = strings.TrimSuffix(domainpart, ".")
+	unmapped := domainpart
 
 	// RFC 7622 §3.2.1.  Preparation
 	//
@@ -451,6 +452,18 @@ func normalizeDomainpart(domainpart string) (string, error) {
 
 	if l := len(domainpart); l < 1 || l > 1023 {
 		return domainpart, errInvalidDomainLen
+	}
+
+	// ToUnicode decides whether some of its checks apply (eg. the Bidi rule of
+	// RFC 5893) by looking at the code points it was given, not at the ones it
+	// maps them to, so what it returns is not necessarily something that it
+	// accepts (eg. U+2136 BET SYMBOL followed by "a" is mapped to a label that
+	// starts with a right-to-left letter and ends with a left-to-right one).
+	// If mapping changed anything make sure that the result is valid too.
+	if domainpart != unmapped {
+		if _, err = idna.Display.ToUnicode(domainpart); err != nil {
+			return domainpart, err
+		}
 	}
 
 	return domainpart, nil
